@@ -1,5 +1,218 @@
 package main
 
-import "fmt"
+import (
+	"fmt"
+	"go/ast"
+	"go/token"
+	"go/types"
+	"os"
+	"path/filepath"
+	"sort"
+	"strings"
 
-func mapOrderPass(root string) error { return fmt.Errorf("maporder pass not built yet") }
+	"golang.org/x/tools/go/packages"
+)
+
+// generator packages whose map iterations are made seeded
+var genPkgs = []string{
+	"./api", "./codegen", "./codegen/config", "./codegen/templates", "./plugin", "./plugin/modelgen",
+	"./plugin/resolvergen", "./plugin/federation", "./plugin/federation/fieldset", "./plugin/stubgen",
+	"./plugin/servergen", "./internal/code", "./internal/imports", "./internal/rewrite",
+}
+
+const simorderSrc = `// Package simorder is added by /verif/tools/instrument to the scratch copy only. It turns Go's
+// randomised map iteration in the generator into a seeded choice: Keys returns the keys sorted and
+// then permuted by a PRNG seeded from SIMORDER_SEED and a per-call counter. Seed 0 (or unset)
+// leaves them sorted. Key types without a natural order keep Go's own (unseeded) order.
+package simorder
+
+import (
+	"fmt"
+	"os"
+	"reflect"
+	"sort"
+	"strconv"
+	"sync/atomic"
+)
+
+var seed = func() uint64 {
+	s, _ := strconv.ParseUint(os.Getenv("SIMORDER_SEED"), 10, 64)
+	return s
+}()
+
+var calls atomic.Uint64
+
+func mix(x uint64) uint64 {
+	x += 0x9e3779b97f4a7c15
+	x = (x ^ (x >> 30)) * 0xbf58476d1ce4e5b9
+	x = (x ^ (x >> 27)) * 0x94d049bb133111eb
+	return x ^ (x >> 31)
+}
+
+func Keys[K comparable, V any](m map[K]V) []K {
+	keys := make([]K, 0, len(m))
+	for k := range m {
+		keys = append(keys, k)
+	}
+	n := calls.Add(1)
+	if len(keys) < 2 {
+		return keys
+	}
+	switch reflect.TypeOf(keys[0]).Kind() {
+	case reflect.String, reflect.Int, reflect.Int8, reflect.Int16, reflect.Int32, reflect.Int64,
+		reflect.Uint, reflect.Uint8, reflect.Uint16, reflect.Uint32, reflect.Uint64, reflect.Bool, reflect.Float64:
+		sort.Slice(keys, func(i, j int) bool { return fmt.Sprint(keys[i]) < fmt.Sprint(keys[j]) })
+	default:
+		return keys // no stable order available: Go's own randomisation stays
+	}
+	if seed == 0 {
+		return keys
+	}
+	state := mix(seed ^ mix(n))
+	for i := len(keys) - 1; i > 0; i-- {
+		state = mix(state)
+		j := int(state % uint64(i+1))
+		keys[i], keys[j] = keys[j], keys[i]
+	}
+	return keys
+}
+`
+
+func simpleExpr(e ast.Expr) bool {
+	switch x := e.(type) {
+	case *ast.Ident:
+		return true
+	case *ast.SelectorExpr:
+		return simpleExpr(x.X)
+	case *ast.IndexExpr:
+		return simpleExpr(x.X) && simpleExpr(x.Index)
+	case *ast.ParenExpr:
+		return simpleExpr(x.X)
+	case *ast.BasicLit:
+		return true
+	case *ast.StarExpr:
+		return simpleExpr(x.X)
+	}
+	return false
+}
+
+type edit struct {
+	start, end int
+	text       string
+}
+
+func mapOrderPass(root string) error {
+	cfg := &packages.Config{Mode: packages.NeedName | packages.NeedFiles | packages.NeedSyntax | packages.NeedTypes | packages.NeedTypesInfo | packages.NeedCompiledGoFiles, Dir: root, Tests: false}
+	pkgs, err := packages.Load(cfg, genPkgs...)
+	if err != nil {
+		return err
+	}
+	nsites := 0
+	for _, pkg := range pkgs {
+		if len(pkg.Errors) > 0 {
+			return fmt.Errorf("loading %s: %v", pkg.PkgPath, pkg.Errors[0])
+		}
+		for i, f := range pkg.Syntax {
+			path := pkg.CompiledGoFiles[i]
+			if strings.HasSuffix(path, "_test.go") || !strings.HasPrefix(path, root) {
+				continue
+			}
+			src, err := os.ReadFile(path)
+			if err != nil {
+				return err
+			}
+			var edits []edit
+			fset := pkg.Fset
+			off := func(p token.Pos) int { return fset.Position(p).Offset }
+			ast.Inspect(f, func(n ast.Node) bool {
+				rs, ok := n.(*ast.RangeStmt)
+				if !ok {
+					return true
+				}
+				tv, ok := pkg.TypesInfo.Types[rs.X]
+				if !ok {
+					return true
+				}
+				if _, isMap := tv.Type.Underlying().(*types.Map); !isMap {
+					return true
+				}
+				rel, _ := filepath.Rel(root, path)
+				line := fset.Position(rs.Pos()).Line
+				if !simpleExpr(rs.X) {
+					fmt.Printf("SKIPPED %s:%d range over a map expression with possible side effects\n", rel, line)
+					return true
+				}
+				x := string(src[off(rs.X.Pos()):off(rs.X.End())])
+				name := func(e ast.Expr) string {
+					if e == nil {
+						return ""
+					}
+					s := string(src[off(e.Pos()):off(e.End())])
+					if s == "_" {
+						return ""
+					}
+					return s
+				}
+				k, v := name(rs.Key), name(rs.Value)
+				var pre strings.Builder
+				pre.WriteString("for _, simk__ := range simorder.Keys(" + x + ") {\n")
+				if rs.Tok == token.ASSIGN {
+					pre.WriteString("var simok__ bool\n")
+					if v != "" {
+						pre.WriteString(v + ", simok__ = " + x + "[simk__]\n")
+					} else {
+						pre.WriteString("_, simok__ = " + x + "[simk__]\n")
+					}
+					pre.WriteString("if !simok__ {\ncontinue\n}\n")
+					if k != "" {
+						pre.WriteString(k + " = simk__\n")
+					}
+				} else {
+					if v != "" {
+						pre.WriteString(v + ", simok__ := " + x + "[simk__]\n")
+					} else {
+						pre.WriteString("_, simok__ := " + x + "[simk__]\n")
+					}
+					pre.WriteString("if !simok__ {\ncontinue\n}\n")
+					if k != "" {
+						pre.WriteString(k + " := simk__\n")
+					}
+				}
+				// replace "for ... range X {" up to and including the body's opening brace
+				edits = append(edits, edit{off(rs.Pos()), off(rs.Body.Lbrace) + 1, pre.String()})
+				nsites++
+				fmt.Printf("SITE %s:%d range over %s made seeded\n", rel, line, x)
+				return true
+			})
+			if len(edits) == 0 {
+				continue
+			}
+			sort.Slice(edits, func(i, j int) bool { return edits[i].start > edits[j].start })
+			out := src
+			for _, e := range edits {
+				out = append(append(append([]byte{}, out[:e.start]...), []byte(e.text)...), out[e.end:]...)
+			}
+			// add the import
+			s := string(out)
+			imp := "\t\"github.com/99designs/gqlgen/internal/simorder\"\n"
+			if i := strings.Index(s, "import (\n"); i >= 0 {
+				s = s[:i+len("import (\n")] + imp + s[i+len("import (\n"):]
+			} else if i := strings.Index(s, "\nimport "); i >= 0 {
+				s = s[:i+1] + "import \"github.com/99designs/gqlgen/internal/simorder\"\n" + s[i+1:]
+			} else {
+				return fmt.Errorf("%s: no import declaration to extend", path)
+			}
+			if err := os.WriteFile(path, []byte(s), 0o644); err != nil {
+				return err
+			}
+		}
+	}
+	if nsites == 0 {
+		return fmt.Errorf("maporder pass matched nothing")
+	}
+	dir := filepath.Join(root, "internal", "simorder")
+	if err := os.MkdirAll(dir, 0o755); err != nil {
+		return err
+	}
+	return os.WriteFile(filepath.Join(dir, "simorder.go"), []byte(simorderSrc), 0o644)
+}
